@@ -1202,3 +1202,30 @@ m('C04','first-packet-not-recorded',PM,
 m('C04','benign-started-after-next',PM,
   '\t\t\tm.started = true\n\t\t\tm.next = seqno + 1\n\t\t\tm.nextPid = pid\n\t\t}\n\t\treturn true, seqno, 0','\t\t\tm.next = seqno + 1\n\t\t\tm.nextPid = pid\n\t\t\tm.started = true\n\t\t}\n\t\treturn true, seqno, 0',
   '','','the flag is set after the number',benign=True)
+# ---------------- C11 R11.5 (F-U) ----------------
+W='rtpconn/webclient.go'
+m('C11','remove-first-only',W,
+  '\treturn slices.DeleteFunc(l, func(w string) bool {\n\t\treturn v == w\n\t})','\tfor i, w := range l {\n\t\tif v == w {\n\t\t\tl = append(l[:i], l[i+1:]...)\n\t\t\treturn l\n\t\t}\n\t}\n\treturn l',
+  'R11.5','remove deletes every occurrence','a permission listed twice survives its revocation (regression of F-U)',quick=True)
+m('C11','remove-other-predicate',W,
+  '\treturn slices.DeleteFunc(l, func(w string) bool {\n\t\treturn v == w\n\t})','\treturn slices.DeleteFunc(l, func(w string) bool {\n\t\treturn v == w && len(l) < 8\n\t})',
+  'R11.5','remove deletes every occurrence','long lists keep the revoked permission')
+m('C11','shutup-result-dropped',W,
+  '\t\t\tc.permissions = remove("message", c.permissions)','\t\t\t_ = remove("message", append([]string(nil), c.permissions...))',
+  'R11.5','revocation of message','the shortened list is not stored')
+m('C11','benign-remove-filter-loop',W,
+  '\treturn slices.DeleteFunc(l, func(w string) bool {\n\t\treturn v == w\n\t})','\tkept := l[:0]\n\tfor _, w := range l {\n\t\tif w != v {\n\t\t\tkept = append(kept, w)\n\t\t}\n\t}\n\treturn kept',
+  '','','a filtering loop instead of DeleteFunc',benign=True)
+# ---------------- C11 R11.6 (F-V) ----------------
+m('C11','permission-change-any-group',W,
+  '\tcase changePermissionsAction:\n\t\tif c.group == nil || c.group != a.group {\n\t\t\tlog.Printf("Got permission change for wrong group")\n\t\t\treturn nil\n\t\t}\n','\tcase changePermissionsAction:\n',
+  'R11.6','store to permissions','a change issued in one group is applied in the group joined since (regression of F-V)',quick=True)
+m('C11','permission-change-nil-only',W,
+  '\t\tif c.group == nil || c.group != a.group {\n\t\t\tlog.Printf("Got permission change for wrong group")','\t\tif c.group == nil {\n\t\t\tlog.Printf("Got permission change for wrong group")',
+  'R11.6','store to permissions','only the client without a group is refused')
+m('C11','permission-change-target-group',W,
+  '\t\t\ttarget.action(changePermissionsAction{g, m.Kind})','\t\t\ttarget.action(changePermissionsAction{target.group, m.Kind})',
+  'R11.6','the permission change carries','the action names whatever group the target is in when it is queued, read without its lock')
+m('C11','benign-permission-change-keyed',W,
+  '\t\t\ttarget.action(changePermissionsAction{g, m.Kind})','\t\t\ttarget.action(changePermissionsAction{kind: m.Kind, group: g})',
+  '','','keyed literal',benign=True)
